@@ -167,6 +167,11 @@ theorem ret_dones (k₁ : Relay.Kind σ₁ α β) (k₂ : Relay.Kind σ₂ β γ
       | lo l => cases l <;> simp [DoneFr] at hf; simpa [advance, opStep, comp, compose, machine, step] using hn
       | hi l => cases l <;> simp [DoneFr] at hf; simpa [advance, opStep, comp, compose, machine, step] using hn
 
+theorem Sim.mk' {k₁ : Relay.Kind σ₁ α β} {k₂ : Relay.Kind σ₂ β γ} {st : St σ₁ × St σ₂} {sl' : Bool} {pr : σ₁ × σ₂}
+    {stk : List (Frame (CLoc α β γ) γ)} {stk' : List (Frame (Loc α γ) γ)} {g : G} {tr : List (Ev α γ)}
+    (hstk : StkRel stk stk') (hpr : pr = (st.1.priv, st.2.priv)) (hslots : AnyLive g.ph → SlotsOK k₁ k₂ st sl') :
+    Sim k₁ k₂ ⟨st, stk, g, tr, none⟩ ⟨⟨sl', pr⟩, stk', g, tr, none⟩ := ⟨rfl, rfl, rfl, rfl, hpr, hstk, hslots⟩
+
 macro "run" n:num m:num : tactic =>
   `(tactic| (refine ⟨$n, $m, ?_⟩; simp [advance, opStep, comp, compose, machine, enter, step, fuse, *]))
 
@@ -189,12 +194,33 @@ theorem sim_step (k₁ : Relay.Kind σ₁ α β) (k₂ : Relay.Kind σ₂ β γ)
     have hlen := hstk.length
     refine ⟨_, EnvStep.call i hc' hl, ?_⟩
     rw [← hlen]
+    clear hlen hc hc'
     cases i with
     | subscribe k =>
       run 2 1
-      trace_state
-      sorry
-    | _ => sorry
+      refine Sim.mk' (.cons (by simp [DoneFr]) hstk) rfl ?_
+      intro hl'
+      simp only [onOut_ph, onIn_ph] at hl'
+      exact hslots (anyLive_onIn _ _ (by simp) (anyLive_onOut _ _ (by simp) hl'))
+    | sinkUp k u =>
+      have hlive : AnyLive g'.ph := by
+        simp only [legalIn, Bool.and_eq_true, beq_iff_eq] at hl; exact Or.inl ⟨k, hl.1⟩
+      obtain ⟨hs1, hs2, hs'⟩ := hslots hlive
+      simp only at hs1 hs2
+      cases hk1 : k₁.slotted <;> cases hk2 : k₂.slotted <;> simp [hk1, hk2] at hs1 hs2 hs'
+      all_goals
+        run 2 1
+        refine Sim.mk' (.cons (by simp [DoneFr]) hstk) rfl ?_
+        intro _
+        simp [SlotsOK, *]
+    | srcGreet j =>
+      cases hk1 : k₁.slotted <;> cases hk2 : k₂.slotted
+      all_goals
+        run 4 2
+        refine Sim.mk' (.cons (by simp [DoneFr]) hstk) rfl ?_
+        trace_state
+        sorry
+    | srcDown j d => sorry
   | @ret st stk g tr o l hl => sorry
 
 end Cb.Fuse
